@@ -38,4 +38,6 @@ ORG_GROUP(bits_gray3, OB3)
 ORG_GROUP(bits_rgb121, OB121)
 ORG_GROUP(bits_rgb222, OB222)
 ORG_GROUP(bits_bgr565, OB565)
+#elif VS_SET == 7
+ORG_GROUP(virtual_rgb8, OrgVirtual)
 #endif
